@@ -50,10 +50,10 @@ def tree_hash(features):
     return h.hexdigest()
 
 
-def expand(features=(), no_default=False):
+def expand(features=(), no_default=False, release=False):
     """Return the text of the expanded crate for the given feature set."""
     os.makedirs(CACHE, exist_ok=True)
-    key = tree_hash(list(features) + (['!default'] if no_default else []))
+    key = tree_hash(list(features) + (['!default'] if no_default else []) + (['!release'] if release else []))
     out = os.path.join(CACHE, 'expanded-%s.rs' % key[:24])
     if os.path.exists(out) and os.path.getsize(out) > 0:
         return open(out).read(), out
@@ -62,6 +62,8 @@ def expand(features=(), no_default=False):
     env['CARGO_NET_OFFLINE'] = 'true'
     env['CARGO_TARGET_DIR'] = os.path.join(CACHE, 'target-expand')
     cmd = ['cargo', 'rustc', '--offline', '--lib']
+    if release:
+        cmd.append('--release')
     if no_default:
         cmd.append('--no-default-features')
     if features:
